@@ -8,6 +8,10 @@
 //! oracle (independent of the Lean model): the property itself — position within 10 m of the point,
 //! latitude in [-90,90], longitude in [-180,180); `None` only if NL(Rlat0) != NL(Rlat1) (computed by the
 //! independent encoder); same parity => `None`.
+//! zone-index oracle (cprlib::check_global_indices): `j`, `j mod 60 / 59`, `lat_even`, `lat_odd`, NL of both,
+//! `m`, `m mod ni` recomputed in exact integer arithmetic from the four fields; the f64 code must have made
+//! the same refusal decision and its output must lie in the zones `j mod 60|59` and `m mod ni`
+//! (classes zone-decision, zone-index-j, zone-index-m) unless the exact `lat_odd` is within 1e-11 of a boundary.
 use crate::common::*;
 use crate::cprlib::*;
 use rs1090::decode::cpr::airborne_position;
@@ -34,6 +38,11 @@ fn do_pair(out: &mut Out, rng: &mut Rng, tab: &[(i128, u32)], m1: M, m2: M, trut
         }
         Some(r) => r,
     };
+    if m1.0 != m2.0 {
+        // zone-index oracle: j, m and the refusal recomputed in integer arithmetic (every pair, encoded or raw)
+        let (me, mo) = if m1.0 == 0 { (m1, m2) } else { (m2, m1) };
+        check_global_indices(out, &op, tab, (me.1, me.2), (mo.1, mo.2), m2.0, &r);
+    }
     if m1.0 == m2.0 {
         if let Some(p) = r {
             out.fail("same-parity-some", &op, &format!("same parity gave ({}, {})", p.latitude, p.longitude));
